@@ -379,7 +379,7 @@ def run_shard(desc, acc):
             sig = "C15/%s:%s" % (sub, "any program with a user-type loop" if scope == "GLOBAL" else "|".join(names))
             acc.violation(sub, sig, {"program": list(names), "axis": "in-process"},
                           "program %s: %s" % ("|".join(names), detail))
-        if not fails and i % 10 == 0 and info:
+        if info and (not acc.samples or (not fails and i % 10 == 0)):
             acc.sample({"program": list(names), "python_sha": info[0], "fortran_sha": info[1]})
 
 
